@@ -754,48 +754,7 @@ func sharedLoopBuffers(f *ssa.Function) []sharedBuf {
 		back, _ := reach(f, g, isInstr(a), nil, nil)
 		return (fwd && back) || a == g
 	}
-	// backing buffers of v: MakeSlice values and array allocations reached through slices, loads and stores of locals
-	var roots func(v ssa.Value, d int, seen map[ssa.Value]bool) []ssa.Value
-	roots = func(v ssa.Value, d int, seen map[ssa.Value]bool) []ssa.Value {
-		if v == nil || d > 8 || seen[v] {
-			return nil
-		}
-		seen[v] = true
-		switch x := v.(type) {
-		case *ssa.MakeSlice:
-			return []ssa.Value{x}
-		case *ssa.Slice:
-			return roots(x.X, d+1, seen)
-		case *ssa.Alloc:
-			if p, ok := x.Type().Underlying().(*types.Pointer); ok {
-				if _, isArr := p.Elem().Underlying().(*types.Array); isArr {
-					return []ssa.Value{x}
-				}
-			}
-			var rs []ssa.Value
-			if x.Referrers() != nil {
-				for _, ref := range *x.Referrers() {
-					if st, ok := ref.(*ssa.Store); ok && st.Addr == ssa.Value(x) {
-						rs = append(rs, roots(st.Val, d+1, seen)...)
-					}
-				}
-			}
-			return rs
-		case *ssa.UnOp:
-			return roots(x.X, d+1, seen)
-		case *ssa.Phi:
-			var rs []ssa.Value
-			for _, e := range x.Edges {
-				rs = append(rs, roots(e, d+1, seen)...)
-			}
-			return rs
-		case *ssa.ChangeType:
-			return roots(x.X, d+1, seen)
-		case *ssa.Convert:
-			return roots(x.X, d+1, seen)
-		}
-		return nil
-	}
+	roots := bufferRoots
 	eachInstr(f, func(in ssa.Instruction) {
 		g, ok := in.(*ssa.Go)
 		if !ok {
@@ -841,4 +800,46 @@ func sharedLoopBuffers(f *ssa.Function) []sharedBuf {
 		}
 	})
 	return out
+}
+
+// backing buffers of v: MakeSlice values and array allocations reached through slices, loads and stores of locals
+func bufferRoots(v ssa.Value, d int, seen map[ssa.Value]bool) []ssa.Value {
+	if v == nil || d > 8 || seen[v] {
+		return nil
+	}
+	seen[v] = true
+	switch x := v.(type) {
+	case *ssa.MakeSlice:
+		return []ssa.Value{x}
+	case *ssa.Slice:
+		return bufferRoots(x.X, d+1, seen)
+	case *ssa.Alloc:
+		if p, ok := x.Type().Underlying().(*types.Pointer); ok {
+			if _, isArr := p.Elem().Underlying().(*types.Array); isArr {
+				return []ssa.Value{x}
+			}
+		}
+		var rs []ssa.Value
+		if x.Referrers() != nil {
+			for _, ref := range *x.Referrers() {
+				if st, ok := ref.(*ssa.Store); ok && st.Addr == ssa.Value(x) {
+					rs = append(rs, bufferRoots(st.Val, d+1, seen)...)
+				}
+			}
+		}
+		return rs
+	case *ssa.UnOp:
+		return bufferRoots(x.X, d+1, seen)
+	case *ssa.Phi:
+		var rs []ssa.Value
+		for _, e := range x.Edges {
+			rs = append(rs, bufferRoots(e, d+1, seen)...)
+		}
+		return rs
+	case *ssa.ChangeType:
+		return bufferRoots(x.X, d+1, seen)
+	case *ssa.Convert:
+		return bufferRoots(x.X, d+1, seen)
+	}
+	return nil
 }
